@@ -121,17 +121,31 @@ def builder_history_witness(quick=False):
     from nunavut.lang import LanguageContextBuilder
     from nunavut._utilities import DefaultValue
 
+    import pathlib, tempfile, shutil, yaml
+    cfgdir = pathlib.Path(tempfile.mkdtemp(prefix="vk_c13h_"))
+    user_cfg = cfgdir / "user.yaml"
+    # a user document that gives list-valued and map-valued entries to languages whose built-in configuration has none
+    user_cfg.write_text(yaml.safe_dump({"nunavut.lang.py": {"reserved_identifiers": ["foo", "bar"]}, "nunavut.lang.html": {"options": {"theme": "dark"}},
+                                        "nunavut.lang.c": {"reserved_identifiers": ["zeta"]}}))
+
     def build(spec):
-        lang, std, flags = spec
+        lang, std, flags = spec[:3]
         b = LanguageContextBuilder(include_experimental_languages=True).set_target_language(lang)
+        if len(spec) > 3:
+            b.add_config_files(user_cfg)
         opts = dict(flags)
         if std:
             opts["std"] = std
-        b.set_target_language_configuration_override("options", opts)
+        if opts:  # no override at all when nothing is overridden: an empty "options" override would give every language an own map
+            b.set_target_language_configuration_override("options", opts)
         return b.create()
 
-    def snapshot(ctx):
+    def snapshot(ctx, target_only=False):
         out = {}
+        tl = ctx.get_target_language()
+        out["target"] = {"name": tl.name, "options": copy.deepcopy(dict(tl.get_options())), "ext": tl.extension}
+        if target_only:  # the other languages of a context are created on demand: looking at them is itself a use
+            return out
         for name, lang in ctx.get_supported_languages().items():
             out[name] = copy.deepcopy(dict(lang.get_options()))
             out[name + ".ext"] = lang.extension
@@ -140,22 +154,43 @@ def builder_history_witness(quick=False):
 
     specs = [("c", None, {}), ("c", None, {"enable_serialization_asserts": True, "target_endianness": "big"}),
              ("cpp", "c++14", {}), ("cpp", "c++17-pmr", {"enable_serialization_asserts": DefaultValue(False)}),
-             ("cpp", "c++17", {"allocator_is_default_constructible": False}), ("py", None, {})]
+             ("cpp", "c++17", {"allocator_is_default_constructible": False}), ("py", None, {}),
+             ("html", None, {}),  # a language whose configuration defines no option map at all
+             ("py", None, {}, "user.yaml"), ("c", None, {}, "user.yaml")]
     if quick:
-        specs = specs[:5]
+        specs = [specs[0], specs[1], specs[3], specs[5], specs[6], specs[7], specs[8]]
+
+    def use(ctx):
+        """what any generation run does with a context: strop a few identifiers in every language (this creates the
+        languages' token encoders); using a context must not change what it reports either"""
+        for lang in ctx.get_supported_languages().values():
+            try:
+                for nm in ("register", "x", "if", "NULL"):
+                    lang.filter_id(nm)
+            except Exception:
+                pass
     n = 0
     for first in specs:
         for rest in itertools.permutations(specs, 1 if quick else 2):
             n += 1
+            ctx0 = build(first)
+            t_snap = snapshot(ctx0, True)
+            for r in rest:
+                use(build(r))
+            t_now = snapshot(ctx0, True)
+            if not strict_eq(t_now["target"], t_snap["target"]):
+                return {"input": {"first": repr(first), "later": repr(rest)}, "why": f"the earlier context's target language now reports {t_now['target']} (before: {t_snap['target']})", "evaluations": n}
             ctx = build(first)
             snap = snapshot(ctx)
+            use(ctx)
             for r in rest:
-                build(r)
+                use(build(r))
             now = snapshot(ctx)
             if not all(strict_eq(now[k], snap[k]) if isinstance(snap[k], Mapping) else now[k] == snap[k] for k in snap):
                 diff = [k for k in snap if not (strict_eq(now[k], snap[k]) if isinstance(snap[k], Mapping) else now[k] == snap[k])]
                 return {"input": {"first": repr(first), "later": repr(rest)}, "why": f"the earlier context now reports different {diff}", "evaluations": n}
     builder_history_witness.evaluations = n
+    shutil.rmtree(cfgdir, ignore_errors=True)
     return None
 
 
@@ -208,4 +243,102 @@ def cpp_validate_witness():
                     diff = {k: (got.get(k), want.get(k)) for k in set(got) | set(want) if got.get(k) != want.get(k)}
                     return {"input": {"std": std, "options": show(options)}, "why": f"(got, contract) differ at {diff}", "evaluations": n}
     cpp_validate_witness.evaluations = n
+    return None
+
+
+def precedence_witness(src_root=None):
+    """End-to-end precedence on the real builder and the real command line (bounded): built-in defaults < configuration
+    files in the order given (a file named twice counts at each position: the LAST source wins) < explicit overrides /
+    explicit command-line options (an explicit value wins even when it equals the built-in default)."""
+    import os
+    import pathlib
+    import shutil
+    import subprocess
+    import sys
+    import tempfile
+    import yaml
+    from nunavut.lang import LanguageContextBuilder
+    base = pathlib.Path(tempfile.mkdtemp(prefix="vk_c13p_"))
+    n = 0
+    try:
+        vals = {"A": "little", "B": "big", "C": "any"}
+        files = {}
+        for k, v in vals.items():
+            files[k] = base / f"{k}.yaml"
+            files[k].write_text(yaml.safe_dump({"nunavut.lang.c": {"options": {"target_endianness": v}, "extension": f".{k.lower()}h"}}))
+        seqs = [("A",), ("A", "B"), ("B", "A"), ("A", "B", "A"), ("B", "A", "B"), ("A", "A"), ("A", "C", "A"), ("C", "B", "C"), ("A", "B", "C", "A")]
+        for seq in seqs:
+            n += 1
+            lang = LanguageContextBuilder().set_target_language("c").add_config_files(*[files[k] for k in seq]).create().get_target_language()
+            got = (lang.get_option("target_endianness"), lang.extension)
+            want = (vals[seq[-1]], f".{seq[-1].lower()}h")
+            if got != want:
+                return {"input": {"configuration_files_in_order": list(seq), "each_sets": {k: (v, f".{k.lower()}h") for k, v in vals.items()}},
+                        "why": f"effective (target_endianness, extension) = {got}; the last source {seq[-1]} sets {want}", "evaluations": n}
+            n += 1
+            lang = (LanguageContextBuilder().set_target_language("c").add_config_files(*[files[k] for k in seq])
+                    .set_target_language_configuration_override("options", {"target_endianness": "big" if want[0] != "big" else "little"}).create().get_target_language())
+            if lang.get_option("target_endianness") != ("big" if want[0] != "big" else "little"):
+                return {"input": {"configuration_files_in_order": list(seq), "override": "options.target_endianness"}, "why": f"an explicit override lost to a configuration file: {lang.get_option('target_endianness')}", "evaluations": n}
+        # the command line: an explicit option wins over a configuration file, also when it names the built-in default
+        env = dict(os.environ, PYTHONPATH=str(src_root) if src_root else os.environ.get("PYTHONPATH", ""), PYTHONDONTWRITEBYTECODE="1")
+        (base / "ns").mkdir()
+        (base / "ns" / "T.1.0.dsdl").write_text("uint8 a\n@sealed\n")
+        for fkey, cli in (("A", "any"), ("A", "big"), ("B", "any"), ("B", "little"), ("C", "little")):
+            n += 1
+            r = subprocess.run([sys.executable, "-m", "nunavut", "--target-language", "c", "-c", str(files[fkey]), "--target-endianness", cli, "--list-configuration", "--outdir", str(base / "o"), str(base / "ns")],
+                               capture_output=True, text=True, env=env)
+            if r.returncode != 0:
+                continue  # the listing mode is not what is under test here
+            try:
+                doc = yaml.safe_load(r.stdout.split("\n", 1)[1])
+                got = doc["nunavut.lang.c"]["options"]["target_endianness"]
+            except Exception:
+                continue
+            if got != cli:
+                return {"input": {"command_line": f"-c {fkey}.yaml (target_endianness: {vals[fkey]}) --target-endianness {cli}"}, "why": f"effective target_endianness is {got!r}: the explicit command-line value lost to the configuration file", "evaluations": n}
+        precedence_witness.evaluations = n
+        return None
+    finally:
+        shutil.rmtree(base, ignore_errors=True)
+
+
+def fresh_process_history_witness(src_root):
+    """The same history check in a FRESH interpreter for every first language: process-wide state (class attributes, module
+    globals) written by an earlier builder of the checking process itself would otherwise already be in the first snapshot."""
+    import json
+    import os
+    import subprocess
+    import sys
+    prog = r'''
+import copy, json, sys
+from nunavut.lang import LanguageContextBuilder
+first, others = sys.argv[1], sys.argv[2:]
+def rep(ctx):
+    tl = ctx.get_target_language()
+    return {"name": tl.name, "options": {k: repr(v) for k, v in dict(tl.get_options()).items()}, "ext": tl.extension}
+ctx = LanguageContextBuilder(include_experimental_languages=True).set_target_language(first).create()
+before = rep(ctx)
+for o in others:
+    c2 = LanguageContextBuilder(include_experimental_languages=True).set_target_language(o).create()
+    for lang in c2.get_supported_languages().values():
+        try:
+            lang.filter_id("register")
+        except Exception:
+            pass
+print(json.dumps({"before": before, "after": rep(ctx)}))
+'''
+    env = dict(os.environ, PYTHONPATH=str(src_root), PYTHONDONTWRITEBYTECODE="1")
+    n = 0
+    langs = ["html", "c", "cpp", "py", "js"]
+    for first in langs:
+        others = [x for x in langs if x != first]
+        n += 1
+        r = subprocess.run([sys.executable, "-c", prog, first] + others, capture_output=True, text=True, env=env, timeout=120)
+        if r.returncode != 0:
+            continue
+        d = json.loads(r.stdout.strip().splitlines()[-1])
+        if d["before"] != d["after"]:
+            return {"input": {"first_context": first, "then_contexts_for": others}, "why": f"the first context's target language reported {d['before']} and now reports {d['after']}", "evaluations": n}
+    fresh_process_history_witness.evaluations = n
     return None
